@@ -493,7 +493,11 @@ def e2e_problems(job, res, name='dev1'):
     for k, s in enumerate(res.get('syncs', [])):
         pr = view_problems(name, s['master_ports'], s['slave_ports'])
         if pr:       # also when the master never got back to an idle, listening / polling state within 120 s
-            out.append({'kind': 'view', 'sync': k, 'ports': pr, 'quiescent': bool(s.get('quiescent'))})
+            lost = [x for x in res.get('session_expiries', []) if x[0] <= s['t'] and x[1] > 0 and x[2]]
+            cause = ('master-stopped-synchronising' if not s.get('quiescent')
+                     else 'listen-session-expired-before-offline' if job['mode'] == 'listen' and lost else None)
+            out.append({'kind': 'view', 'sync': k, 'ports': pr, 'quiescent': bool(s.get('quiescent')), 'cause': cause,
+                        'events_lost_with_expired_session_while_online': lost})
     for pid, d, sh in order_cases(job, res):
         if dedup(d) != dedup(sh):
             out.append({'kind': 'order', 'port': pid, 'delivered': dedup(d), 'reported': dedup(sh)})
@@ -720,27 +724,32 @@ def run_e2e_batch(ctx, res, jobs, label, tags):
         job, r = jobs[j], results[j]
         probs = e2e_problems(job, r)
         kind = probs[0]['kind'] if probs else failing[j][0][0]
-        if (kind, job['mode']) in reported:
+        cause = probs[0].get('cause') if probs else None
+        if (kind, job['mode'], cause) in reported:
             continue
-        reported.add((kind, job['mode']))
+        reported.add((kind, job['mode'], cause))
 
-        def still(js, kind=kind):
+        def still(js, kind=kind, cause=cause):
             rs = run_worker(js)
-            return [any(p['kind'] == kind for p in e2e_problems(jj, rr)) if 'syncs' in rr else False for jj, rr in zip(js, rs)]
+            return [any(p['kind'] == kind and p.get('cause') == cause for p in e2e_problems(jj, rr)) if 'syncs' in rr else False
+                    for jj, rr in zip(js, rs)]
         small = shrink_e2e(job, still)
         rr = run_worker([small])[0]
-        probs = [p for p in e2e_problems(small, rr) if p['kind'] == kind] or probs
+        probs = [p for p in e2e_problems(small, rr) if p['kind'] == kind and p.get('cause') == cause] or probs
         p0 = probs[0] if probs else {}
         key = {'kind': kind, 'mode': job['mode']}
-        if kind == 'view' and p0.get('quiescent') is False:
-            key['cause'] = 'master-stopped-synchronising'
+        if kind == 'view' and p0.get('cause'):
+            key['cause'] = p0['cause']
         if kind == 'view':
             key['attrs'] = sorted({a for _p, l in p0.get('ports', []) if isinstance(l, list) for a in l})[:4] or \
                 sorted({l for _p, l in p0.get('ports', []) if isinstance(l, str)})
         res['violations'].append({
             'key': key,
             'what': ('GET /ports of the master differs from the device at a sync point%s: %s'
-                     % ('' if p0.get('quiescent', True) else ' (120 s after the last change the master is still not waiting '
+                     % (' (the device dropped its listen session, with events still queued, while the master reported the slave '
+                        'online: %s)' % p0.get('events_lost_with_expired_session_while_online')
+                        if p0.get('cause') == 'listen-session-expired-before-offline'
+                        else '' if p0.get('quiescent', True) else ' (120 s after the last change the master is still not waiting '
                         'in a listen call / polling: its synchronisation loop has stopped)', p0.get('ports')) if kind == 'view'
                      else 'port %s: the master reported the values %s, the device delivered %s'
                      % (p0.get('port'), p0.get('reported'), p0.get('delivered'))) + ' ; script: ' + describe(small),
